@@ -1,10 +1,586 @@
-//! C15 — not built yet.
+//! C15 Responses pair each serial with its own data.
+//!
+//! One updater thread performs `Server::process_once` calls (engine without TALs, the data set of
+//! each call carried by the local exceptions) while 1–3 reader threads issue RTR queries through
+//! the `PayloadSource` implementation of `SharedHistory` (`ready`, `full`, `diff`, `notify`) and
+//! HTTP data requests (`/json`, `/csv`, `/json-delta[?session&serial]`) through the real
+//! dispatcher. The schedule (generated choice bytes, or enumerated completely for small programs)
+//! decides how the readers' lock acquisitions interleave with the updater's steps
+//! (`mark_update_start`, `update`'s read and installing write, `mark_update_done`, notify).
+//!
+//! Oracle: the reference model maps serial k to the k-th distinct data set of the call sequence.
+//! (a) pairing: every response that names (session, serial) carries exactly the set of that
+//! serial, a delta answer from serial f to s turns set f into set s; (b) order: the serial of a
+//! response is the one in force at the response's lock acquisition (trace position: number of
+//! installing writes before it); (c) before the first installing write nothing is served
+//! (`ready()` false, HTTP 503).
+
+use std::collections::BTreeMap;
+use std::sync::{Arc, Mutex};
+
+use proptest::prelude::*;
+use rpki::rtr::server::PayloadSource;
+use serde::{Deserialize, Serialize};
 
 use crate::core::*;
+use crate::hist::{parse_delta_doc, rtr_diff, rtr_full, rtr_notify};
+use crate::hsched::*;
+use crate::parsers::parse_output;
+use crate::pay::*;
+use crate::sched::{self, BytesChooser, Chooser, Dfs, Event, Job, Opts};
 
-pub const IMPLEMENTED: bool = false;
+#[derive(Serialize, Deserialize, Clone, Debug, PartialEq, Eq, Hash)]
+pub enum ROp {
+    /// Reset Query: `ready()`, then `full()`
+    RtrFull,
+    /// Serial Query with the client's serial: `ready()`, then `diff()`
+    RtrDiff(u32),
+    /// Serial Notify: `notify()`
+    RtrNotify,
+    Json,
+    Csv,
+    /// `/json-delta` without a version
+    DeltaReset,
+    /// `/json-delta?session=<current>&serial=<n>`
+    Delta(u32),
+}
 
-pub fn run(_ctx: &Ctx, _rep: &mut Report, _replay: Option<&serde_json::Value>) {
-    eprintln!("C15: check not implemented");
-    std::process::exit(2);
+#[derive(Serialize, Deserialize, Clone, Debug)]
+pub struct Case {
+    pub keep: usize,
+    /// data set ids (see `hsched::set_of`) installed sequentially before the concurrent phase
+    pub pre: Vec<u8>,
+    /// data set ids of the updater's calls
+    pub sets: Vec<u8>,
+    pub readers: Vec<Vec<ROp>>,
+    /// schedule; thread 0 = updater, 1.. = readers
+    pub choices: Vec<u8>,
+}
+
+/// What one lock acquisition of a reader returned.
+#[derive(Clone, Debug)]
+pub enum Seen {
+    Ready(bool),
+    Full { session: u16, serial: u32, items: Vec<MItem> },
+    Diff { from: u32, answer: Option<(u16, u32, Vec<(MItem, bool)>)> },
+    Notify { session: u16, serial: u32 },
+    Http { what: &'static str, from: Option<u32>, status: u16, etag: Option<String>, body: Vec<u8> },
+}
+
+#[derive(Clone, Debug)]
+pub struct Obs {
+    pub tid: usize,
+    /// (operation index, micro index) within the thread
+    pub id: (usize, usize),
+    pub seen: Seen,
+}
+
+pub struct World<'a> {
+    pub fx: &'a Fixture,
+    pub configs: BTreeMap<usize, Arc<routinator::config::Config>>,
+}
+
+impl<'a> World<'a> {
+    pub fn new(fx: &'a Fixture) -> Self {
+        let mut configs = BTreeMap::new();
+        for k in [1usize, 2, 10] {
+            configs.insert(k, Arc::new(fx.config(k)));
+        }
+        World { fx, configs }
+    }
+    pub fn config(&self, keep: usize) -> Arc<routinator::config::Config> {
+        self.configs.get(&keep).cloned().unwrap_or_else(|| Arc::new(self.fx.config(keep)))
+    }
+}
+
+fn observe(out: &Arc<Mutex<Vec<Obs>>>, tid: usize, id: (usize, usize), f: impl FnOnce() -> Seen) -> Seen {
+    sched::note(format!("o {} {} begin", id.0, id.1));
+    let seen = f();
+    sched::note(format!("o {} {} end", id.0, id.1));
+    out.lock().unwrap().push(Obs { tid, id, seen: seen.clone() });
+    seen
+}
+
+fn http(inst: &Inst, what: &'static str, uri: &str, from: Option<u32>) -> Seen {
+    let r = request_now(&inst.handler, uri, &[]);
+    Seen::Http { what, from, status: r.status, etag: r.header("etag").map(|s| s.to_string()), body: r.body() }
+}
+
+pub fn reader_job(inst: &Inst, tid: usize, ops: Vec<ROp>, session: u64, out: Arc<Mutex<Vec<Obs>>>) -> Job {
+    let inst = inst.clone();
+    Box::new(move || {
+        for (k, op) in ops.iter().enumerate() {
+            match op {
+                ROp::RtrFull => {
+                    // rpki::rtr::server answers "no data available" unless the source is ready
+                    if let Seen::Ready(true) = observe(&out, tid, (k, 0), || Seen::Ready(inst.history.ready())) {
+                        observe(&out, tid, (k, 1), || {
+                            let (session, serial, items) = rtr_full(&inst.history);
+                            Seen::Full { session, serial, items }
+                        });
+                    }
+                }
+                ROp::RtrDiff(from) => {
+                    if let Seen::Ready(true) = observe(&out, tid, (k, 0), || Seen::Ready(inst.history.ready())) {
+                        observe(&out, tid, (k, 1), || Seen::Diff { from: *from, answer: rtr_diff(&inst.history, session as u16, *from).map(|d| (d.session, d.serial, d.actions)) });
+                    }
+                }
+                ROp::RtrNotify => {
+                    observe(&out, tid, (k, 0), || {
+                        let (session, serial) = rtr_notify(&inst.history);
+                        Seen::Notify { session, serial }
+                    });
+                }
+                ROp::Json => {
+                    observe(&out, tid, (k, 0), || http(&inst, "json", "/json", None));
+                }
+                ROp::Csv => {
+                    observe(&out, tid, (k, 0), || http(&inst, "csv", "/csv", None));
+                }
+                ROp::DeltaReset => {
+                    observe(&out, tid, (k, 0), || http(&inst, "json-delta", "/json-delta", None));
+                }
+                ROp::Delta(from) => {
+                    observe(&out, tid, (k, 0), || http(&inst, "json-delta", &format!("/json-delta?session={}&serial={}", session, from), Some(*from)));
+                }
+            }
+        }
+    })
+}
+
+/// Where an observation's lock acquisitions fall: (first, last) trace index of its `history.read` steps.
+pub fn obs_reads(trace: &[Event], tid: usize, id: (usize, usize)) -> Option<(usize, usize)> {
+    let b = trace.iter().position(|e| matches!(e, Event::Note { tid: t, text } if *t == tid && *text == format!("o {} {} begin", id.0, id.1)))?;
+    let e = trace.iter().position(|e| matches!(e, Event::Note { tid: t, text } if *t == tid && *text == format!("o {} {} end", id.0, id.1)))?;
+    let reads = steps_between(trace, tid, "history.read", b, e);
+    Some((*reads.first()?, *reads.last()?))
+}
+
+pub fn parse_etag(etag: &str) -> Option<(u64, u32)> {
+    let inner = etag.strip_prefix('"')?.strip_suffix('"')?;
+    let (s, n) = inner.split_once('-')?;
+    Some((u64::from_str_radix(s, 16).ok()?, n.parse().ok()?))
+}
+
+fn listed_set(format: &str, body: &[u8]) -> Result<MSet, String> {
+    let l = parse_output(format, body)?;
+    let mut set = MSet::default();
+    for (o, _) in &l.origins {
+        if !set.origins.insert(o.clone()) {
+            return Err(format!("duplicate origin {:?}", o));
+        }
+    }
+    for (k, _) in &l.keys {
+        if !set.keys.insert(k.clone()) {
+            return Err(format!("duplicate key {:?}", k));
+        }
+    }
+    if !l.aspas.is_empty() {
+        return Err("ASPAs listed although none was installed".into());
+    }
+    Ok(set)
+}
+
+fn set_from_items(items: &[MItem]) -> Result<MSet, String> {
+    let set = MSet::from_items(items.iter().cloned());
+    if set.len() != items.len() {
+        return Err(format!("{} items but {} distinct", items.len(), set.len()));
+    }
+    Ok(set)
+}
+
+/// Judges one observation. `n` = (installs before its first read, installs before its last read).
+/// `marks` = completed `mark_update_done` steps before its first read (over the whole history).
+fn judge_obs(o: &Obs, n: (usize, usize), marks: usize, model: &Model, session: u64, info: &mut CaseInfo) -> Result<(), (String, String)> {
+    let lo = if n.0 == 0 { None } else { Some(model.serial(n.0)) };
+    let hi = if n.1 == 0 { None } else { Some(model.serial(n.1)) };
+    let in_order = |serial: u32| -> bool { serial >= lo.unwrap_or(0) && serial <= hi.unwrap_or(0) };
+    let fail = |k: &str, m: String| Err((format!("C15/{}", k), m));
+    match &o.seen {
+        Seen::Ready(r) => {
+            if n.1 == 0 && *r {
+                return fail("served-before-first-validation/rtr-ready", "ready() is true before the first data set was installed".into());
+            }
+            if n.0 >= 1 && !*r {
+                return fail("not-ready-after-first-validation/rtr-ready", format!("ready() is false after {} data set(s) were installed", n.0));
+            }
+            info.class(if *r { "rtr-ready=true" } else { "rtr-ready=false(before first validation)" });
+        }
+        Seen::Full { session: s, serial, items } => {
+            if *s != session as u16 {
+                return fail("session-mismatch/rtr-full", format!("session {} != {}", s, session as u16));
+            }
+            let got = set_from_items(items).map_err(|e| ("C15/malformed/rtr-full".to_string(), e))?;
+            match model.set_of(*serial) {
+                Some(want) if *want == got => {}
+                want => return fail("serial-data-mismatch/rtr-full", format!("Cache Response for serial {} carries {:?}, the data set of serial {} is {:?}", serial, got.items(), serial, want.map(|w| w.items()))),
+            }
+            if !in_order(*serial) {
+                return fail("serial-out-of-order/rtr-full", format!("serial {} answered while serial(s) {:?}..={:?} were in force", serial, lo, hi));
+            }
+            info.class("rtr-full");
+        }
+        Seen::Diff { from, answer } => match answer {
+            None => info.class("rtr-diff=refused"),
+            Some((s, serial, actions)) => {
+                if *s != session as u16 {
+                    return fail("session-mismatch/rtr-diff", format!("session {} != {}", s, session as u16));
+                }
+                let (Some(base), Some(want)) = (model.set_of(*from), model.set_of(*serial)) else {
+                    return fail("serial-data-mismatch/rtr-diff", format!("delta from serial {} to serial {}: no such serial(s) were ever produced ({} exist)", from, serial, model.by_serial.len()));
+                };
+                match base.apply(actions) {
+                    Ok(res) if res == *want => {}
+                    other => return fail("serial-data-mismatch/rtr-diff", format!("delta from serial {} tagged serial {} applied to the set of {} gives {:?}, the set of serial {} is {:?}", from, serial, from, other.map(|s| s.items()), serial, want.items())),
+                }
+                if !in_order(*serial) {
+                    return fail("serial-out-of-order/rtr-diff", format!("serial {} answered while serial(s) {:?}..={:?} were in force", serial, lo, hi));
+                }
+                info.class(if actions.is_empty() { "rtr-diff=empty" } else { "rtr-diff=delta" });
+            }
+        },
+        Seen::Notify { session: s, serial } => {
+            if *s != session as u16 {
+                return fail("session-mismatch/rtr-notify", format!("session {} != {}", s, session as u16));
+            }
+            if !in_order(*serial) {
+                return fail("serial-out-of-order/rtr-notify", format!("Serial Notify {} while serial(s) {:?}..={:?} were in force", serial, lo, hi));
+            }
+            info.class("rtr-notify");
+        }
+        Seen::Http { what, from, status, etag, body } => {
+            if *status != 200 {
+                // before the first install nothing may be served; /json and /csv additionally wait
+                // for the creation time set by the first mark_update_done
+                if *status == 503 && (n.0 == 0 || (*what != "json-delta" && marks == 0)) {
+                    info.class(format!("{}=503", what));
+                    return Ok(());
+                }
+                return fail(&format!("unexpected-status/{}", what), format!("status {} after {} install(s) and {} completed update(s)", status, n.0, marks));
+            }
+            if n.1 == 0 {
+                return fail(&format!("served-before-first-validation/{}", what), format!("200 with {} body bytes before the first data set was installed", body.len()));
+            }
+            match *what {
+                "json" | "csv" => {
+                    let Some((s, serial)) = etag.as_deref().and_then(parse_etag) else {
+                        return fail(&format!("malformed/{}", what), format!("ETag {:?}", etag));
+                    };
+                    if s != session {
+                        return fail(&format!("session-mismatch/{}", what), format!("ETag session {:x} != {:x}", s, session));
+                    }
+                    let got = listed_set(what, body).map_err(|e| (format!("C15/malformed/{}", what), e))?;
+                    let Some(want) = model.set_of(serial) else {
+                        return fail(&format!("serial-data-mismatch/{}", what), format!("ETag names serial {} which was never produced", serial));
+                    };
+                    let want = if *what == "csv" { MSet { origins: want.origins.clone(), ..Default::default() } } else { want.clone() };
+                    if got != want {
+                        return fail(&format!("serial-data-mismatch/{}", what), format!("ETag names serial {} but the body lists {:?}; the data set of serial {} is {:?}", serial, got.items(), serial, want.items()));
+                    }
+                    if !in_order(serial) {
+                        return fail(&format!("serial-out-of-order/{}", what), format!("serial {} served while serial(s) {:?}..={:?} were in force", serial, lo, hi));
+                    }
+                    info.class(format!("{}=200", what));
+                }
+                _ => {
+                    let doc = parse_delta_doc(body).map_err(|e| ("C15/malformed/json-delta".to_string(), e))?;
+                    if doc.session != session {
+                        return fail("session-mismatch/json-delta", format!("session {} != {}", doc.session, session));
+                    }
+                    let Some(want) = model.set_of(doc.serial) else {
+                        return fail("serial-data-mismatch/json-delta", format!("document names serial {} which was never produced", doc.serial));
+                    };
+                    if doc.reset {
+                        let got = set_from_items(&doc.announced).map_err(|e| ("C15/malformed/json-delta".to_string(), e))?;
+                        if got != *want || !doc.withdrawn.is_empty() {
+                            return fail("serial-data-mismatch/json-delta-reset", format!("reset document for serial {} lists {:?}; the data set of serial {} is {:?}", doc.serial, got.items(), doc.serial, want.items()));
+                        }
+                        info.class("json-delta=reset");
+                    } else {
+                        let f = doc.from_serial.or(*from).unwrap_or(0);
+                        if Some(f) != *from {
+                            return fail("serial-data-mismatch/json-delta", format!("asked for a delta from serial {:?}, document says fromSerial {}", from, f));
+                        }
+                        let Some(base) = model.set_of(f) else {
+                            return fail("serial-data-mismatch/json-delta", format!("delta from serial {} which was never produced", f));
+                        };
+                        match base.apply(&doc.actions()) {
+                            Ok(res) if res == *want => {}
+                            other => return fail("serial-data-mismatch/json-delta", format!("delta document {} -> {} applied to the set of {} gives {:?}; the set of serial {} is {:?}", f, doc.serial, f, other.map(|s| s.items()), doc.serial, want.items())),
+                        }
+                        info.class(if doc.announced.is_empty() && doc.withdrawn.is_empty() { "json-delta=empty" } else { "json-delta=delta" });
+                    }
+                    if !in_order(doc.serial) {
+                        return fail("serial-out-of-order/json-delta", format!("serial {} served while serial(s) {:?}..={:?} were in force", doc.serial, lo, hi));
+                    }
+                }
+            }
+        }
+    }
+    Ok(())
+}
+
+fn execute(world: &World<'_>, case: &Case, chooser: &mut dyn Chooser, info: &mut CaseInfo) -> Verdict {
+    if case.sets.is_empty() || case.sets.len() > 4 || case.pre.len() > 3 || case.readers.is_empty() || case.readers.len() > 3 || case.readers.iter().any(|r| r.is_empty() || r.len() > 4) {
+        return Verdict::Dropped("case_out_of_domain".into());
+    }
+    let inst = Inst::new(world.config(case.keep), world.fx.engine.clone());
+    let all: Vec<MSet> = case.pre.iter().chain(case.sets.iter()).map(|i| set_of(*i)).collect();
+    let model = Model::new(&all);
+    {
+        let mut n = inst.notify.clone();
+        for (i, id) in case.pre.iter().enumerate() {
+            if !inst.process_once(&mut n, &set_of(*id), i == 0) {
+                return Verdict::Dropped("pre_run_failed".into());
+            }
+        }
+    }
+    let session = inst.session();
+    let out: Arc<Mutex<Vec<Obs>>> = Default::default();
+    let mut jobs: Vec<Job> = vec![updater_job(&inst, case.sets.iter().map(|i| set_of(*i)).collect(), case.pre.len())];
+    for (r, ops) in case.readers.iter().enumerate() {
+        jobs.push(reader_job(&inst, r + 1, ops.clone(), session, out.clone()));
+    }
+    let mut watch = Watch::new(&inst.history);
+    let run = sched::run_opts(
+        jobs,
+        chooser,
+        &mut |t| {
+            watch.on_step(t);
+            Ok(())
+        },
+        &Opts { stutter_labels: Some(STUTTER_LABELS), ..Default::default() },
+    );
+    if let Some((tid, msg)) = run.panics.first() {
+        return Verdict::fail("C15/thread-panic", format!("thread {} panicked: {}", tid, msg));
+    }
+    if run.deadlock {
+        return Verdict::fail("C15/deadlock", format!("all threads blocked; trace {}", render_trace(&run.trace)));
+    }
+    if run.diverged {
+        return Verdict::Dropped("schedule_step_bound".into());
+    }
+    let trace = &run.trace;
+    let mut ups = updater_positions(trace, 0);
+    if ups.len() != case.sets.len() || !watch.apply(&mut ups) || ups.iter().any(|u| !u.ok || u.install.is_none() || u.mark_done.is_none()) {
+        return Verdict::Dropped("updater_trace_incomplete".into());
+    }
+    let installs: Vec<usize> = ups.iter().map(|u| u.install.unwrap()).collect();
+    let mark_dones: Vec<usize> = ups.iter().map(|u| u.mark_done.unwrap()).collect();
+    let npre = case.pre.len();
+    let observations = std::mem::take(&mut *out.lock().unwrap());
+    let mut nt = false;
+    for o in &observations {
+        let Some((first, last)) = obs_reads(trace, o.tid, o.id) else {
+            return Verdict::Dropped("observation_without_lock_step".into());
+        };
+        let n = (npre + count_before(&installs, first), npre + count_before(&installs, last));
+        let marks = npre + count_before(&mark_dones, first);
+        // where does the observation fall relative to the updater's calls?
+        for (i, u) in ups.iter().enumerate() {
+            if first > u.begin && first < u.end.unwrap_or(usize::MAX) {
+                nt = true;
+                let phase = if first < u.read.unwrap_or(0) {
+                    "before-update"
+                } else if first < u.install.unwrap() {
+                    "between-update-read-and-install"
+                } else if first < u.mark_done.unwrap() {
+                    "between-install-and-mark-done"
+                } else {
+                    "between-mark-done-and-notify"
+                };
+                info.class(format!("reader-inside-call:{}{}", phase, if model.changed(npre + i) { "" } else { "(unchanged data)" }));
+            }
+        }
+        if let Err((key, msg)) = judge_obs(o, n, marks, &model, session, info) {
+            return Verdict::fail(key, format!("reader {} op {:?}: {}; trace: {}", o.tid, o.id, msg, render_trace(trace)));
+        }
+    }
+    info.nt(nt);
+    info.class(format!("readers={} calls={}", case.readers.len(), case.sets.len()));
+    if npre == 0 {
+        info.class("starts-before-first-validation");
+    }
+    Verdict::Pass
+}
+
+fn prop_sched(world: &World<'_>, case: &Case, info: &mut CaseInfo) -> Verdict {
+    let mut ch = BytesChooser::new(&case.choices);
+    execute(world, case, &mut ch, info)
+}
+
+fn rop_strategy() -> impl Strategy<Value = ROp> {
+    prop_oneof![
+        2 => Just(ROp::RtrFull),
+        2 => (0u32..4).prop_map(ROp::RtrDiff),
+        1 => Just(ROp::RtrNotify),
+        2 => Just(ROp::Json),
+        1 => Just(ROp::Csv),
+        1 => Just(ROp::DeltaReset),
+        2 => (0u32..4).prop_map(ROp::Delta),
+    ]
+}
+
+fn case_strategy() -> impl Strategy<Value = Case> {
+    (
+        prop::sample::select(vec![1usize, 2, 10]),
+        prop::collection::vec(0u8..16, 0..=2),
+        prop::collection::vec(0u8..16, 1..=3),
+        prop::collection::vec(prop::collection::vec(rop_strategy(), 1..=3), 1..=3),
+        prop::collection::vec(0u8..4, 0..64),
+    )
+        .prop_map(|(keep, pre, sets, readers, choices)| Case { keep, pre, sets, readers, choices })
+}
+
+fn dfs_programs(tier: Tier) -> Vec<Case> {
+    let c = |pre: &[u8], sets: &[u8], readers: &[&[ROp]]| Case { keep: 10, pre: pre.to_vec(), sets: sets.to_vec(), readers: readers.iter().map(|r| r.to_vec()).collect(), choices: vec![] };
+    use ROp::*;
+    let mut v = vec![
+        c(&[], &[1, 3], &[&[Json, Json]]),
+        c(&[], &[5], &[&[RtrFull], &[Csv]]),
+        c(&[1], &[3], &[&[RtrDiff(0), Delta(0)]]),
+        c(&[1], &[3, 3], &[&[RtrFull, RtrNotify]]),
+        c(&[1, 2], &[6], &[&[DeltaReset], &[RtrDiff(1)]]),
+    ];
+    v.push(c(&[], &[1, 3], &[&[RtrFull, Json], &[Delta(0)]]));
+    if tier == Tier::Thorough {
+        v.push(c(&[1], &[3, 7], &[&[RtrDiff(0), Json], &[Csv, Delta(1)]]));
+    }
+    v
+}
+
+fn run_dfs(ctx: &Ctx, rep: &mut Report, world: &World<'_>) {
+    let bound = usize::MAX;
+    let cap = ctx.tier.pick(1_500usize, 60_000);
+    let mut per_program = Vec::new();
+    let mut all_exhausted = true;
+    let mut total = 0usize;
+    for prog in dfs_programs(ctx.tier) {
+        let mut dfs = Dfs::new();
+        let mut n = 0usize;
+        let mut exhausted = false;
+        loop {
+            let mut info = CaseInfo::default();
+            let mut bounded = Bounded::new(&mut dfs, bound);
+            let verdict = execute(world, &prog, &mut bounded, &mut info);
+            n += 1;
+            let case = Case { choices: bounded.taken.clone(), ..prog.clone() };
+            rep.record(ctx, &Tagged { sub: "sched".to_string(), case }, &info, &verdict);
+            if rep.violated() {
+                return;
+            }
+            if !dfs.advance() {
+                exhausted = true;
+                break;
+            }
+            if n >= cap {
+                break;
+            }
+        }
+        total += n;
+        all_exhausted &= exhausted;
+        per_program.push(serde_json::json!({"pre": prog.pre, "sets": prog.sets, "readers": prog.readers, "schedules": n, "exhausted": exhausted}));
+    }
+    rep.extra.insert("dfs_schedules".into(), serde_json::json!(total));
+    rep.extra.insert("dfs_programs".into(), serde_json::json!(per_program));
+    rep.exhaustive = Some(all_exhausted);
+}
+
+/// Uncontrolled stress: one updater, 15 readers, pairing oracle only (no trace, so no order check).
+fn run_stress(ctx: &Ctx, rep: &mut Report, world: &World<'_>) {
+    let rounds = ctx.tier.pick(3usize, 40);
+    let calls = ctx.tier.pick(150usize, 500);
+    let mut responses = 0u64;
+    for round in 0..rounds {
+        let inst = Inst::new(world.config(10), world.fx.engine.clone());
+        let ids: Vec<u8> = (0..calls).map(|i| ((i * 7 + round * 3) % 16) as u8 | if i % 5 == 0 { 0 } else { 1 }).collect();
+        let sets: Vec<MSet> = ids.iter().map(|i| set_of(*i)).collect();
+        let model = Model::new(&sets);
+        let stop = std::sync::atomic::AtomicBool::new(false);
+        let bad: Mutex<Option<(String, String)>> = Mutex::new(None);
+        let count = std::sync::atomic::AtomicU64::new(0);
+        std::thread::scope(|s| {
+            for t in 0..15usize {
+                let (inst, model, stop, bad, count) = (&inst, &model, &stop, &bad, &count);
+                s.spawn(move || {
+                    let session = inst.session();
+                    let mut k = 0usize;
+                    while !stop.load(std::sync::atomic::Ordering::Relaxed) {
+                        k += 1;
+                        let op = match (t + k) % 6 {
+                            0 => ROp::RtrFull,
+                            1 => ROp::Json,
+                            2 => ROp::DeltaReset,
+                            3 => ROp::RtrDiff(u32::from(inst.history.read().serial()).saturating_sub((k % 3) as u32)),
+                            4 => ROp::Csv,
+                            _ => ROp::Delta(u32::from(inst.history.read().serial()).saturating_sub((k % 4) as u32)),
+                        };
+                        let out: Arc<Mutex<Vec<Obs>>> = Default::default();
+                        reader_job(inst, t, vec![op], session, out.clone())();
+                        for o in out.lock().unwrap().iter() {
+                            let mut info = CaseInfo::default();
+                            // no trace: every position is admissible for the order check
+                            let n = (if matches!(o.seen, Seen::Ready(false)) { 0 } else { 1 }, model.sets.len());
+                            if matches!(o.seen, Seen::Ready(_)) {
+                                continue;
+                            }
+                            if let Seen::Http { status, .. } = &o.seen {
+                                if *status != 200 {
+                                    continue;
+                                }
+                            }
+                            count.fetch_add(1, std::sync::atomic::Ordering::Relaxed);
+                            if let Err((key, msg)) = judge_obs(o, n, 1, model, session, &mut info) {
+                                *bad.lock().unwrap() = Some((key.replace("C15/", "C15/stress/"), msg));
+                                stop.store(true, std::sync::atomic::Ordering::Relaxed);
+                            }
+                        }
+                    }
+                });
+            }
+            let mut n = inst.notify.clone();
+            for (i, set) in sets.iter().enumerate() {
+                if stop.load(std::sync::atomic::Ordering::Relaxed) {
+                    break;
+                }
+                inst.process_once(&mut n, set, i == 0);
+            }
+            stop.store(true, std::sync::atomic::Ordering::Relaxed);
+        });
+        responses += count.load(std::sync::atomic::Ordering::Relaxed);
+        if let Some((key, msg)) = bad.into_inner().unwrap() {
+            let case = Tagged { sub: "stress".to_string(), case: serde_json::json!({"round": round}) };
+            rep.failure(ctx, &case, &key, &msg);
+            break;
+        }
+    }
+    rep.extra.insert("stress_rounds".into(), serde_json::json!(rounds));
+    rep.extra.insert("stress_calls_per_round".into(), serde_json::json!(calls));
+    rep.extra.insert("stress_responses_judged".into(), serde_json::json!(responses));
+}
+
+pub fn run(ctx: &Ctx, rep: &mut Report, replay: Option<&serde_json::Value>) {
+    rep.rule("thread 0 performs 1-3 Server::process_once calls (engine without TALs; data set = subset of 3 origins + 1 router key carried by local exceptions; repeats included), 0-2 calls were made before; 1-3 reader threads x 1-3 operations: RTR reset query (ready + full), serial query (ready + diff from serial 0..3), notify, GET /json, /csv, /json-delta, /json-delta?session&serial through the real dispatcher, futures polled by hand; schedules over history.read/history.write try-locks and process_once.before_notify: (dfs) every schedule of 5 programs (thorough 7, capped), (sched) generated programs with generated choice strings, (stress) 15 uncontrolled readers against 150-500 calls; oracle: serial k <-> k-th distinct data set of the call sequence; every response naming (session, serial) carries exactly that set / a delta turning set f into set s; the serial is the one in force at the response's lock acquisition; nothing served before the first install; non-trivial = a reader's lock acquisition falls inside a process_once call (between its first and last step); distinct by program+schedule");
+    rep.assume("one controlled thread runs at a time (sequentially consistent interleavings at yield-point granularity); regions without yield points (inside a held lock) are only raced by the uncontrolled stress rounds");
+    rep.assume("the engine has no TALs: the served data set of a call is exactly its local exceptions");
+    let fx = Fixture::new(ctx);
+    let world = World::new(&fx);
+    if let Some(v) = replay {
+        let t: Tagged<serde_json::Value> = serde_json::from_value(v.clone()).expect("replay");
+        match t.sub.as_str() {
+            "sched" => run_case(ctx, rep, "sched", &serde_json::from_value::<Case>(t.case).expect("case"), |c, i| prop_sched(&world, c, i)),
+            "stress" => run_stress(ctx, rep, &world),
+            other => panic!("unknown sub {}", other),
+        }
+        return;
+    }
+    run_dfs(ctx, rep, &world);
+    if rep.violated() {
+        return;
+    }
+    run_prop(ctx, rep, "sched", ctx.tier.pick(6_000, 150_000), case_strategy(), |c, i| prop_sched(&world, c, i));
+    if rep.violated() {
+        return;
+    }
+    run_stress(ctx, rep, &world);
 }
